@@ -746,6 +746,9 @@ pub struct Run {
     pub results: Vec<String>, // one token per statement, protocol form
     pub file: Vec<u8>,        // device bytes after the writer was dropped
     pub panicked: bool,
+    /// the last finalize statement executed was a plain `finalize()` that returned ok: the XML in the
+    /// file is then exactly what the writer serialised (no caller transformer in between)
+    pub plain_final: bool,
 }
 
 fn res<T>(r: &std::result::Result<e57::Result<T>, String>) -> &'static str {
@@ -795,11 +798,12 @@ pub fn transformer(mode: &str) -> Box<dyn Fn(String) -> e57::Result<String>> {
 pub fn execute(prog: &Program, dev: &SimDev) -> Run {
     let mut results: Vec<String> = vec![];
     let mut panicked = false;
+    let mut plain_final = false;
     let created = guarded(|| E57Writer::new(dev.clone(), &prog.guid));
     let mut w = match created {
         Ok(Ok(w)) => w,
         _ => {
-            return Run { results: vec!["NEWERR".into()], file: dev.data(), panicked: created.is_err() };
+            return Run { results: vec!["NEWERR".into()], file: dev.data(), panicked: created.is_err(), plain_final: false };
         }
     };
     'outer: for s in &prog.stmts {
@@ -834,6 +838,7 @@ pub fn execute(prog: &Program, dev: &SimDev) -> Run {
             }
             Stmt::Fin => {
                 let r = guarded(|| w.finalize());
+                plain_final = matches!(r, Ok(Ok(_)));
                 results.push(res(&r).into());
                 if r.is_err() {
                     panicked = true;
@@ -843,6 +848,7 @@ pub fn execute(prog: &Program, dev: &SimDev) -> Run {
             Stmt::FinX(m) => {
                 let tr = transformer(m);
                 let r = guarded(|| w.finalize_customized_xml(tr));
+                plain_final = false;
                 results.push(res(&r).into());
                 if r.is_err() {
                     panicked = true;
@@ -1012,7 +1018,7 @@ pub fn execute(prog: &Program, dev: &SimDev) -> Run {
         }
     }
     let _ = guarded(|| drop(w));
-    Run { results, file: dev.data(), panicked }
+    Run { results, file: dev.data(), panicked, plain_final }
 }
 
 /// library version string the writer embeds (read once from a file written by the real crate)
@@ -1056,5 +1062,14 @@ pub fn fnv_bytes(b: &[u8]) -> u64 {
 }
 
 pub fn run_line(run: &Run) -> String {
-    format!("R {} | F {}:{} | X {}", run.results.join(" "), run.file.len(), fnv_bytes(&run.file), hex(&extract_xml(&run.file)))
+    // T: the tree roxmltree reports for the XML the writer serialised (C04, obligation "text -> tree"):
+    // the Lean model states this tree directly (E57/Model/MetaTree.lean) and proves the reader's
+    // round trip on it; here the real parser's answer is compared with the model's tree
+    let t = if run.plain_final {
+        let toks = crate::eng_reader::dump_xml(&extract_xml(&run.file)).0;
+        format!("{}:{}", toks.len(), fnv(&toks.join(" ")))
+    } else {
+        "-".to_string()
+    };
+    format!("R {} | F {}:{} | X {} | T {}", run.results.join(" "), run.file.len(), fnv_bytes(&run.file), hex(&extract_xml(&run.file)), t)
 }
